@@ -62,6 +62,8 @@ def schedule_search(ctx, prop, bad, lean_failed):
 
 def run(ctx):
     facts, res, bad = schedule_part(ctx, "C09", PROGRAMS_QUICK)
+    from vlib.props import c08
+    c08.cow_class_sweep(ctx, "C09", ops=("unwrap_or_clone",))
     histcheck.run(ctx, MODULE, WEIGHTS, TAGS, lean_extra=EXTRA)
     # "... and the allocation is released": over every payload shape (size not a multiple of the word, over-aligned, ZST)
     from vlib import layout_corr
